@@ -425,7 +425,20 @@ def extract_and_normalise(spec, repo=None):
 def split_template(tmpl_text, tmpl_path):
     """-> list of ('text', str) | ('unit', UnitSpec, region_text, first_line)"""
     segs = []
-    lines = tmpl_text.split('\n')
+    # includes are expanded first (textually), so that an included file may contain //@unit regions as well
+    expanded = []
+    for ln in tmpl_text.split('\n'):
+        mi = INCLUDE_RE.match(ln)
+        if mi:
+            inc = os.path.join(VERIF, mi.group(1))
+            if not os.path.exists(inc):
+                raise WeaveError('%s: include %s not found' % (tmpl_path, inc))
+            expanded.append('// ---- begin include %s' % mi.group(1))
+            expanded += open(inc).read().rstrip('\n').split('\n')
+            expanded.append('// ---- end include %s' % mi.group(1))
+        else:
+            expanded.append(ln)
+    lines = expanded
     i = 0
     buf = []
     while i < len(lines):
